@@ -761,3 +761,199 @@ Proof.
     + exact Hmt3.
     + rewrite Hsc3. reflexivity.
 Qed.
+
+(* ------------------------------------------------------------------------- *)
+(* 6. Malformed input is rejected (B), hence T2-T4                            *)
+(* ------------------------------------------------------------------------- *)
+
+Definition badrun (s : st) (i : N) (r : list N) : Prop :=
+  (exists x, run' s i r = Stop x) \/
+  (exists s', run' s i r = Cont s' /\
+              (group_incomplete (i + N.of_nat (length r)) s' = true \/ has_digit s' = false)).
+
+Lemma badrun_scan : forall l s i r,
+  run' st0 0 l = run' s i r -> i + N.of_nat (length r) = N.of_nat (length l) ->
+  badrun s i r -> exists e, scan l = SErr e.
+Proof.
+  intros l s i r Hrun Hlen [[x Hx]|[s' [Hs' Hb]]].
+  - apply (scan_stop l x). congruence.
+  - rewrite (scan_cont l s') by congruence.
+    destruct (i128_max <? mantissa s')%Z; [eauto|].
+    unfold finish. rewrite <- Hlen.
+    destruct (group_incomplete (i + N.of_nat (length r)) s') eqn:Eg; [eauto|].
+    destruct Hb as [Hb|Hb]; [discriminate|]. rewrite Hb. cbn [negb]. eauto.
+Qed.
+
+Lemma badrun_step : forall s i c s1 r,
+  step' s i c = Cont s1 -> badrun s1 (i + 1) r -> badrun s i (c :: r).
+Proof.
+  intros s i c s1 r Hst [[x Hx]|[s' [Hs' Hb]]].
+  - left. exists x. cbn [run']. rewrite Hst. exact Hx.
+  - right. exists s'. split; [cbn [run']; rewrite Hst; exact Hs'|].
+    replace (i + N.of_nat (length (c :: r))) with (i + 1 + N.of_nat (length r))
+      by (cbn [length]; lia).
+    exact Hb.
+Qed.
+
+Lemma step'_stop_generic : forall s i c,
+  (i =? 0) && (c =? 45) = false ->
+  (c =? 44) && is_none (sc s) && aligned_comma (prefix_len s) (comma_pos s) i = false ->
+  (c =? 46) && is_none (sc s) && (is_none (comma_pos s) || oeqb (comma_pos s) i) = false ->
+  is_digit c = false ->
+  exists x, step' s i c = Stop x.
+Proof.
+  intros s i c E1 E2 E3 Hd. unfold step'. rewrite E1, E2, E3.
+  destruct (oeqb (comma_pos s) i); [eauto|]. rewrite Hd. eauto.
+Qed.
+
+Lemma ingroup_nondigit : forall s i c q,
+  comma_pos s = Some q -> i < q -> 0 < i -> sc s = None -> is_digit c = false ->
+  exists x, step' s i c = Stop x.
+Proof.
+  intros s i c q Hc Hlt Hi Hs Hd.
+  assert (Eq : (q =? i) = false) by lia.
+  apply step'_stop_generic; [| | |exact Hd].
+  - assert (E : (i =? 0) = false) by lia. rewrite E. reflexivity.
+  - rewrite Hc. cbn [aligned_comma]. rewrite Eq. apply andb_false_r.
+  - rewrite Hc. cbn [is_none oeqb orb]. rewrite Eq. apply andb_false_r.
+Qed.
+
+Lemma ingroup : forall pre s j q post,
+  Forall dig pre -> comma_pos s = Some q -> sc s = None -> 0 < j ->
+  j + N.of_nat (length pre) < q ->
+  (post = [] \/ exists c post', post = c :: post' /\ is_digit c = false) ->
+  badrun s j (pre ++ post).
+Proof.
+  intros pre s j q post Hd Hc Hs Hj Hlt Hpost.
+  unfold badrun. rewrite run'_digits; [|exact Hd|].
+  2:{ intros q' Hq'. rewrite Hc in Hq'. inversion Hq'; subst. lia. }
+  set (s1 := after s j pre).
+  assert (Hc1 : comma_pos s1 = Some q) by (unfold s1; rewrite after_comma_pos; exact Hc).
+  assert (Hs1 : sc s1 = None) by (apply after_sc_none; exact Hs).
+  destruct Hpost as [->|(c & post' & -> & Hnd)].
+  - right. exists s1. split; [reflexivity|]. left.
+    unfold group_incomplete. rewrite Hc1. rewrite app_nil_r. lia.
+  - left. cbn [run'].
+    destruct (ingroup_nondigit s1 (j + N.of_nat (length pre)) c q Hc1 Hlt ltac:(lia) Hs1 Hnd)
+      as [x Hx].
+    rewrite Hx. eauto.
+Qed.
+
+Lemma refused : forall r s j,
+  comma_pos s = Some (j + 3) -> sc s = None -> 0 < j ->
+  (forall a b c r', r = a :: b :: c :: r' -> is_digit a && is_digit b && is_digit c = false) ->
+  badrun s j r.
+Proof.
+  intros r s j Hc Hs Hj Hno.
+  destruct (span_digits r) as [pre post] eqn:Hsp.
+  destruct (span_digits_spec _ _ _ Hsp) as (-> & Hd & Hpost).
+  apply (ingroup pre s j (j + 3) post Hd Hc Hs Hj); [|exact Hpost].
+  destruct pre as [|a [|b [|c pre']]]; cbn [length]; try lia.
+  exfalso.
+  specialize (Hno a b c (pre' ++ post) eq_refl).
+  inversion Hd as [|? ? Ha Hd1]; subst. inversion Hd1 as [|? ? Hb Hd2]; subst.
+  inversion Hd2 as [|? ? Hc' Hd3]; subst. unfold dig in *.
+  rewrite Ha, Hb, Hc' in Hno. discriminate.
+Qed.
+
+Lemma open_group : forall s i r',
+  sc s = None -> aligned_comma (prefix_len s) (comma_pos s) i = true -> 0 < i ->
+  stops (44 :: r') -> badrun s i (44 :: r').
+Proof.
+  intros s i r' Hs Hal Hi Hstop.
+  apply (badrun_step _ _ _ _ _ (step'_comma _ _ Hs Hal Hi)).
+  apply refused.
+  - cbn [comma_st comma_pos]. f_equal. lia.
+  - exact Hs.
+  - lia.
+  - intros a b c r'' ->. apply (Hstop a b c r'' eq_refl).
+Qed.
+
+Theorem malformed_rejected : forall l, spec_scan l = None -> exists e, scan l = SErr e.
+Proof.
+  intros l H. rewrite spec_scan_eq in H.
+  destruct (strip l) as [ng body] eqn:Hstrip.
+  destruct (span_digits body) as [g0 r1] eqn:Hspan.
+  fold (grp_ok g0) in H.
+  destruct (if grp_ok g0 then groups r1 else ([], r1)) as [gs r2] eqn:Hgrp.
+  destruct (int_phase _ _ _ _ _ _ _ Hstrip Hspan Hgrp)
+    as (s2 & i2 & Hrun & Hlen & Hcp & Hfm & Hmt & Hsc & Hpl & Hsg & Hhd & Hnil & Hcons & Hstop).
+  destruct (run'_strip _ _ _ Hstrip) as (_ & _ & Hng).
+  destruct (span_digits_spec _ _ _ Hspan) as (Hbody & Hdg0 & Hr1).
+  apply (badrun_scan l s2 i2 r2 Hrun Hlen).
+  unfold tail in H. destruct r2 as [|x r3].
+  - (* end of input with no digit *)
+    right. exists s2. split; [reflexivity|]. right. rewrite Hhd.
+    destruct (nonempty (g0 ++ gs)); [discriminate|reflexivity].
+  - destruct (x =? 46) eqn:Ex.
+    + (* a fraction *)
+      apply N.eqb_eq in Ex. subst x.
+      destruct (span_digits r3) as [fp r4] eqn:Hsp2.
+      destruct (span_digits_spec _ _ _ Hsp2) as (Hr3 & Hdfp & Hr4).
+      assert (Hc : comma_pos s2 = None \/ comma_pos s2 = Some i2).
+      { rewrite Hcp. destruct (nonempty gs); auto. }
+      destruct (frac_phase s2 i2 fp r4 (g0 ++ gs) Hsc Hc Hdfp Hmt)
+        as (s3 & Hrun3 & Hcp3 & Hsc3 & Hfm3 & Hmt3 & Hpl3 & Hsg3 & Hhd3).
+      unfold badrun. rewrite Hr3, Hrun3.
+      destruct Hr4 as [->|(y & r5 & -> & Hnd)].
+      * right. exists s3. split; [reflexivity|]. right. rewrite Hhd3, Hhd.
+        destruct (g0 ++ gs) as [|u v]; [|discriminate].
+        cbn [app nonempty orb] in *. destruct (nonempty fp); [discriminate|reflexivity].
+      * left. cbn [run'].
+        destruct (step'_stop_generic s3 (i2 + 1 + N.of_nat (length fp)) y) as [z Hz].
+        -- assert (E : (i2 + 1 + N.of_nat (length fp) =? 0) = false) by lia.
+           rewrite E. reflexivity.
+        -- rewrite Hsc3. cbn [is_none]. rewrite andb_false_r. reflexivity.
+        -- rewrite Hsc3. cbn [is_none]. rewrite andb_false_r. reflexivity.
+        -- exact Hnd.
+        -- rewrite Hz. eauto.
+    + (* something else after the integer part *)
+      destruct gs as [|g gs'].
+      * destruct (Hnil eq_refl) as [Hi2 Hr2]. cbn [nonempty] in Hcp.
+        assert (Hnd : is_digit x = false).
+        { destruct Hr1 as [Hr1|(c & r & Hr1 & Hnd)]; [congruence|].
+          rewrite Hr1 in Hr2. inversion Hr2; subst. exact Hnd. }
+        destruct ((x =? 44) && grp_ok g0) eqn:E44.
+        -- apply andb_prop in E44. destruct E44 as [E44 Eg]. apply N.eqb_eq in E44. subst x.
+           apply open_group.
+           ++ exact Hsc.
+           ++ rewrite Hcp, Hpl. cbn [aligned_comma]. unfold grp_ok in Eg. lia.
+           ++ unfold grp_ok in Eg. lia.
+           ++ exact (Hstop Eg).
+        -- left. cbn [run'].
+           destruct (step'_stop_generic s2 i2 x) as [z Hz].
+           ++ destruct (i2 =? 0) eqn:Ei; [|reflexivity].
+              destruct (x =? 45) eqn:E45; [|reflexivity]. exfalso.
+              apply N.eqb_eq in E45. subst x.
+              destruct ng; cbn [p_of] in Hi2; [lia|].
+              destruct g0 as [|u v]; [|cbn [length] in Hi2; lia].
+              apply (Hng eq_refl r3). rewrite Hbody. cbn [app]. congruence.
+           ++ rewrite Hsc, Hcp, Hpl. cbn [is_none aligned_comma].
+              unfold grp_ok in E44. lia.
+           ++ rewrite Ex. reflexivity.
+           ++ exact Hnd.
+           ++ rewrite Hz. eauto.
+      * destruct (Hcons ltac:(discriminate)) as [Hi2 Eg]. cbn [nonempty] in Hcp.
+        destruct (x =? 44) eqn:E44.
+        -- apply N.eqb_eq in E44. subst x. apply open_group.
+           ++ exact Hsc.
+           ++ rewrite Hcp. cbn [aligned_comma]. apply N.eqb_refl.
+           ++ exact Hi2.
+           ++ exact (Hstop Eg).
+        -- left. cbn [run']. unfold step'.
+           assert (E0 : (i2 =? 0) = false) by lia.
+           rewrite E0, E44, Ex, Hcp. cbn [andb oeqb]. rewrite N.eqb_refl. eauto.
+Qed.
+
+Theorem accept_only_wf : forall l d,
+  scan l = SOk d -> exists t, spec_scan l = Some t /\ fits t = true /\ d = pdec_of t.
+Proof.
+  intros l d H. destruct (spec_scan l) as [t|] eqn:E.
+  - pose proof (wf_accepted _ _ E) as H1. rewrite H in H1.
+    destruct (fits t) eqn:Ef; [|discriminate]. inversion H1. eauto.
+  - destruct (malformed_rejected _ E) as [e He]. congruence.
+Qed.
+
+Theorem too_big_rejected : forall l t,
+  spec_scan l = Some t -> fits t = false -> scan l = SErr InvalidDecimal.
+Proof. intros l t H Hf. rewrite (wf_accepted _ _ H), Hf. reflexivity. Qed.
